@@ -546,7 +546,24 @@ func (c *c13) monitorState() {
 		}
 	}
 	if msg, broken := irokeeper.AllInvariants(*c.k())(c.f.Ctx); broken {
-		c.viol("C13/invariant/iro-module-invariant-broken", msg)
+		what := "other"
+		for _, ph := range [][2]string{
+			{"total allocation less than sold amount", "plan-sold-exceeds-allocation"},
+			{"total allocation less than claimed amount", "plan-claimed-exceeds-allocation"},
+			{"claimed amount greater than sold amount", "plan-claimed-exceeds-sold"},
+			{"insufficient RA tokens", "accounting-module-short-of-rollapp-tokens"},
+			{"incorrect founder funds", "accounting-founder-funds"},
+			{"iro tokens left in module", "accounting-iro-tokens-left"},
+			{"last plan id mismatch", "plan-last-id"},
+			{"plan validate basic", "plan-validate-basic"},
+		} {
+			if strings.Contains(msg, ph[0]) {
+				what = ph[1]
+				break
+			}
+		}
+		c.viol("C13/invariant/"+what, msg)
+		c.onFix = 1 << 30 // the shared app keeps the broken plan: start the next trace on a fresh app
 	}
 }
 
@@ -762,6 +779,38 @@ func TestC13(t *testing.T) {
 		c.endTrace()
 		return
 	}
+	c13Corpus(c)
 	c13Generate(c)
 	c.endTrace()
+}
+
+// c13Corpus: fixed witness traces (the Lean counter-examples of Props/C13.lean, same numbers), run
+// first in every run so that each known finding is re-derived on the real code whatever the seed.
+func c13Corpus(c *c13) {
+	for _, tr := range [][]string{
+		// F5 — exact spend with 6-decimals liquidity (fixed price 1): tokens scaled by the liquidity decimals
+		{"reset 20000000000000000 1000000000000000000 400000000000000000 0 0 0 3 1000000000000000000000 6",
+			"fund 0 1000000000000", "fund 1 1000000000000",
+			"create 1000000000000000000000 0 1000000000000000000 1000000000000000000 6 1 0 3600 500000000000000000 3 0",
+			"bes 1 1020000 1"},
+		// Newton tolerance — price 1000, 18 decimals: a dust spend returns the unconverged first guess
+		{"reset 20000000000000000 1000000000000000000 400000000000000000 0 0 0 3 1000000000000000000000000 18",
+			"fund 0 2000000000000000000000", "fund 1 1000000000000000000000",
+			"create 1000000000000000000000000 0 1000000000000000000 1000000000000000000000 18 1 0 3600 500000000000000000 3 0",
+			"bes 1 1000 1", "sell 1 980 1"},
+		// F16 — vesting total 3·10^18 over 3 ns, claim after 2 ns
+		{"reset 20000000000000000 1000000000000000000 400000000000000000 0 0 0 3 1000000000000000000000 18",
+			"fund 0 1000000000000000000000", "fund 1 1000000000000000000000",
+			"create 1000000000000000000000 0 1000000000000000000 1000000000000000000 18 1 0 3600 500000000000000000 3 0",
+			"buy 1 5000000000000000000 1000000000000000000000", "settle 1000000000000000000000", "time 2", "claimv 0"},
+		// creation fee (6 tokens) above the sellable maximum (5 tokens)
+		{"reset 20000000000000000 6000000000000000000 400000000000000000 0 0 0 3 10000000000000000001 18",
+			"fund 0 1000000000000000000000",
+			"create 10000000000000000001 0 1000000000000000000 1000000000000000000 18 1 0 3600 1000000000000000000 3 0"},
+	} {
+		for _, l := range tr {
+			c.do(l)
+		}
+		c.r.Hit("corpus/witness-trace")
+	}
 }
